@@ -1,23 +1,6 @@
+/- The root module imports the executable models only. The property modules (PoetryVerif/Props/Cxx.lean) are built as separate
+targets (see MANIFEST.setup_cmd and `check`): two proof files may each trigger Lean's on-demand generation of the same auxiliary
+equation lemma, which cannot be imported together into one module. -/
 import PoetryVerif.Model.Basic
 import PoetryVerif.Model.Generated
 import PoetryVerif.Model.Version
-import PoetryVerif.Props.C01
-import PoetryVerif.Props.C02
-import PoetryVerif.Props.C03
-import PoetryVerif.Props.C04
-import PoetryVerif.Props.C05
-import PoetryVerif.Props.C06
-import PoetryVerif.Props.C07
-import PoetryVerif.Props.C08
-import PoetryVerif.Props.C09
-import PoetryVerif.Props.C10
-import PoetryVerif.Props.C11
-import PoetryVerif.Props.C12
-import PoetryVerif.Props.C13
-import PoetryVerif.Props.C14
-import PoetryVerif.Props.C15
-import PoetryVerif.Props.C16
-import PoetryVerif.Props.C17
-import PoetryVerif.Props.C18
-import PoetryVerif.Props.C19
-import PoetryVerif.Props.C20
